@@ -19,23 +19,48 @@ theorem clipIdx_le (n : ℕ) (i : ℤ) : clipIdx n i ≤ n := by
   unfold clipIdx
   split_ifs with h1 h2 <;> omega
 
-/-- **acceptance of one cumulative bound** is exactly: `low < high`, and the range `[s, e)` (Python-clipped)
-can reach the interval — its smallest possible sum is `≤ high` and its largest possible sum is `≥ low`. -/
+theorem cbRangeOk_iff (n : ℕ) (c : CBound4 ℝ) : cbRangeOk n c = true ↔ 0 ≤ c.s ∧ c.s < c.e ∧ c.e ≤ (n : ℤ) := by
+  unfold cbRangeOk; simp
+
+/-- inside the horizon Python's slice `v[s:e]` is the slot range `[s, e)` itself (no clipping, no negative-index reading). -/
+theorem sliceSum_inRange (n : ℕ) (v : ℕ → ℝ) (s e : ℤ) (hs : 0 ≤ s) (he : e ≤ (n : ℤ)) (hse : s < e) :
+    sliceSum n v s e = sumRange s.toNat e.toNat v := by
+  unfold sliceSum clipIdx
+  have h1 : ¬ s < 0 := by omega
+  have h2 : ¬ (n : ℤ) < s := by omega
+  have h3 : ¬ e < 0 := by omega
+  have h4 : ¬ (n : ℤ) < e := by omega
+  simp [h1, h2, h3, h4]
+
+/-- **acceptance of one cumulative bound** is exactly: the slot range `[s, e)` is a non-empty range inside the
+horizon (Python's clipped / negative-index readings of other ranges are *rejected*, not reinterpreted), `low < high`,
+and the flow summed over that range can reach the interval — its smallest possible sum is `≤ high` and its largest
+possible sum is `≥ low`. -/
 theorem cbound_accept_iff (n : ℕ) (lb hb : ℕ → ℝ) (c : CBound4 ℝ) :
     cb4Ok n lb hb c = true ↔
-      c.l < c.h ∧ sliceSum n lb c.s c.e ≤ c.h ∧ c.l ≤ sliceSum n hb c.s c.e := by
+      (0 ≤ c.s ∧ c.s < c.e ∧ c.e ≤ (n : ℤ)) ∧ c.l < c.h ∧
+      sumRange c.s.toNat c.e.toNat lb ≤ c.h ∧ c.l ≤ sumRange c.s.toNat c.e.toNat hb := by
   unfold cb4Ok
-  split_ifs with h1 h2 h3
-  · simp; intro h; linarith
-  · simp; intro _ h; linarith
-  · simp; intro _ _; linarith
-  · simp
-    exact ⟨by linarith, by linarith, by linarith⟩
+  by_cases hr : cbRangeOk n c = true
+  · have hr' := (cbRangeOk_iff n c).mp hr
+    rw [if_neg (not_not.mpr hr)]
+    rw [sliceSum_inRange n lb c.s c.e hr'.1 hr'.2.2 hr'.2.1, sliceSum_inRange n hb c.s c.e hr'.1 hr'.2.2 hr'.2.1]
+    split_ifs with h1 h2 h3
+    · simp only [Bool.false_eq_true, false_iff]; rintro ⟨_, h4, h5, h6⟩; linarith
+    · simp only [Bool.false_eq_true, false_iff]; rintro ⟨_, h4, h5, h6⟩; linarith
+    · simp only [Bool.false_eq_true, false_iff]; rintro ⟨_, h4, h5, h6⟩; linarith
+    · simp only [true_iff]
+      exact ⟨hr', by linarith, by linarith, by linarith⟩
+  · rw [if_pos hr]
+    simp only [Bool.false_eq_true, false_iff, not_and]
+    intro h
+    exact absurd ((cbRangeOk_iff n c).mpr h) hr
 
 /-- an element of a `cbounds` list is accepted iff it has **arity 4** and passes `cbound_accept_iff`. -/
 theorem cbItem_accept_iff (n : ℕ) (lb hb : ℕ → ℝ) (it : CbItem ℝ) (c : CBound4 ℝ) :
     cbItemOk n lb hb it = some c ↔
-      it = .four c ∧ c.l < c.h ∧ sliceSum n lb c.s c.e ≤ c.h ∧ c.l ≤ sliceSum n hb c.s c.e := by
+      it = .four c ∧ (0 ≤ c.s ∧ c.s < c.e ∧ c.e ≤ (n : ℤ)) ∧ c.l < c.h ∧
+      sumRange c.s.toNat c.e.toNat lb ≤ c.h ∧ c.l ≤ sumRange c.s.toNat c.e.toNat hb := by
   cases it with
   | bad k => simp [cbItemOk]
   | four c' =>
@@ -67,11 +92,15 @@ theorem sliceSum_le (n : ℕ) (lb hb : ℕ → ℝ) (h : ∀ i < n, lb i ≤ hb 
   omega
 
 /-- **"unattainable" is exactly emptiness**: an accepted cumulative bound over a consistent box can be met by a
-flow inside the box (a convex combination of the lower and the upper bound vectors). -/
+flow inside the box (a convex combination of the lower and the upper bound vectors), summed over its own slot
+range `[s, e)`. -/
 theorem cbound_attainable (n : ℕ) (lb hb : ℕ → ℝ) (hbox : ∀ i < n, lb i ≤ hb i) (c : CBound4 ℝ)
     (h : cb4Ok n lb hb c = true) :
-    ∃ s, InBox n lb hb s ∧ c.l ≤ sliceSum n s c.s c.e ∧ sliceSum n s c.s c.e ≤ c.h := by
-  obtain ⟨hlh, hL, hH⟩ := (cbound_accept_iff n lb hb c).mp h
+    ∃ s, InBox n lb hb s ∧ c.l ≤ sumRange c.s.toNat c.e.toNat s ∧ sumRange c.s.toNat c.e.toNat s ≤ c.h := by
+  obtain ⟨⟨hr1, hr2, hr3⟩, hlh, hL, hH⟩ := (cbound_accept_iff n lb hb c).mp h
+  have conv : ∀ v : ℕ → ℝ, sumRange c.s.toNat c.e.toNat v = sliceSum n v c.s c.e :=
+    fun v => (sliceSum_inRange n v c.s c.e hr1 hr3 hr2).symm
+  simp only [conv] at hL hH ⊢
   set L := sliceSum n lb c.s c.e with hLdef
   set H := sliceSum n hb c.s c.e with hHdef
   have hLH : L ≤ H := sliceSum_le n lb hb hbox c.s c.e
@@ -108,7 +137,7 @@ theorem cbound_attainable (n : ℕ) (lb hb : ℕ → ℝ) (hbox : ∀ i < n, lb 
 
 example : cb4Ok 3 (fun _ => (0:ℝ)) (fun _ => 1) ⟨1, 2, 0, 3⟩ = true := by
   rw [cbound_accept_iff]
-  simp [sliceSum, sumRange, clipIdx, sumTo]
+  simp [sumRange, sumTo]
   try norm_num
 
 /-- the 4-tuples of a `cbounds` list, when every element has arity 4. -/
@@ -247,7 +276,7 @@ theorem setCbounds_ok_iff (n : ℕ) (lb hb : ℕ → ℝ) (spec : CbSpec ℝ) (s
 /-- every stored cumulative bound of an accepted setting is attainable inside the box. -/
 theorem setCbounds_attainable (n : ℕ) (lb hb : ℕ → ℝ) (hbox : ∀ i < n, lb i ≤ hb i) (spec : CbSpec ℝ)
     (cs : List (CBound4 ℝ)) (h : setCbounds n lb hb spec = (some cs, none)) :
-    ∀ c ∈ cs, ∃ s, InBox n lb hb s ∧ c.l ≤ sliceSum n s c.s c.e ∧ sliceSum n s c.s c.e ≤ c.h := by
+    ∀ c ∈ cs, ∃ s, InBox n lb hb s ∧ c.l ≤ sumRange c.s.toNat c.e.toNat s ∧ sumRange c.s.toNat c.e.toNat s ≤ c.h := by
   intro c hc
   exact cbound_attainable n lb hb hbox c (((setCbounds_ok_iff n lb hb spec (some cs)).mp h).2 cs rfl c hc)
 
@@ -255,7 +284,7 @@ theorem setCbounds_attainable (n : ℕ) (lb hb : ℕ → ℝ) (hbox : ∀ i < n,
 theorem setCbounds_reject_clears (n : ℕ) (lb hb : ℕ → ℝ) :
     setCbounds n lb hb (.pair (2:ℝ) 1) = (some [], some .valueError) := by
   have : cb4Ok n lb hb ⟨(2:ℝ), 1, 0, (n : ℤ)⟩ = false := by
-    unfold cb4Ok; simp
+    unfold cb4Ok; split_ifs <;> simp_all
   simp [setCbounds, this]
 
 /-- on a device whose bounds are entirely `None`, whatever `cbounds` assignment is accepted is still stored
@@ -520,9 +549,9 @@ theorem mfCheck_iff (nFlows n : ℕ) (lb hb : ℕ → ℝ) :
     simp only [List.any_eq_true, List.mem_range, decide_eq_true_eq]
     exact ⟨⟨i, hi, hl⟩, ⟨j, hj, hh⟩⟩
 
-/-- `TwoRatioMFDeviceSet`: exactly two flows, ratios absent (NB: accepted, unusable) or of length two, a known type. -/
+/-- `TwoRatioMFDeviceSet`: exactly two flows, ratios present and of length two, a known constraint type. -/
 theorem twoRatioCheck_iff (nFlows : ℕ) (r : Option ℕ) (ctypeOk : Bool) :
-    twoRatioCheck nFlows r ctypeOk = true ↔ nFlows = 2 ∧ (∀ k, r = some k → k = 2) ∧ ctypeOk = true := by
+    twoRatioCheck nFlows r ctypeOk = true ↔ nFlows = 2 ∧ r = some 2 ∧ ctypeOk = true := by
   unfold twoRatioCheck
   cases r with
   | none => split_ifs with h1 h2 <;> simp_all
